@@ -49,6 +49,8 @@ ASSUMPTIONS = [
     'np.linalg.inv returns the inverse (model: adjugate / determinant), exactly for scaled signed permutation '
     'matrices with power-of-two spacings, to 2^-40 relative otherwise',
     'padding is one constant value (modes CONSTANT, MINIMUM, MAXIMUM); other modes: overlap clause by the oracle only',
+    'tolerances are >= 0 or None (with a negative atol np.isclose still accepts identical entries through its `x == y` term; '
+    'run once on the real code: geometry_equal(g, g, tol=-1.0) is True; the model has no such term and the generator draws no negative tolerance)',
 ]
 MODELLED_NOT_VERIFIED = ['numpy transpose / pad / basic slicing', 'np.linalg.inv, np.dot in float64',
                          'Volume / VolumeGeometry constructors (orthogonality test of the affine)',
@@ -1307,8 +1309,181 @@ def check_plan(ctx, cell, ans):
 
 
 # ------------------------------------------------------------------------------------------ run / replay
+
+# ------------------------------------------------------------------------------------------ stream: geometry_equal as a relation
+def run_rel_case(ctx, i, reqs, pending):
+    """reflexive; symmetric for tol=None and for differences within the purely absolute part; NOT symmetric inside the
+    window (tol + rtol |a|, tol + rtol |b|] (np.allclose scales its relative term by the second argument); not transitive
+    (two steps of 3/4 tol; a frame of reference of None in the middle)."""
+    r = ctx.rng('rel', i)
+    g = random_source(r)
+    g['dir'] = [list(d) for d in r.choice(SP)]
+    g['exact'] = True
+    kind = r.choice(['refl', 'refl-copy', 'asym', 'asym', 'sym-abs', 'sym-none', 'trans', 'trans', 'for-trans'])
+    tolk = r.choice(['default', 'default', '1e-3', '0']) if kind != 'sym-none' else 'none'
+    tol = {'default': TOL, 'none': None, '1e-3': F(1, 1000), '0': F(0)}[tolk]
+    kw = {} if tolk == 'default' else {'tol': (None if tol is None else float(tol))}
+    case = {'stream': 'rel', 'index': i, 'seed': ctx.seed, 'info': {'kind': kind, 'tol': tolk}}
+    mk = r.choice([make_geometry, lambda x: make_volume(x, np.zeros(x['shape'], np.int16), r.choice([0, 2]))])
+
+    def ask(x, y, gx, gy, tag, want=None):
+        st, val = _call(x.geometry_equal, y, **kw)
+        c2 = dict(case, pair=tag)
+        if st != 'ok':
+            ctx.fail(c2, f'geometry_equal raised {val}', site='geometry_equal')
+            return None
+        exact_want, _ = exact_geq(gx, gy, tol)
+        if want is not None and exact_want != want:
+            ctx.hist('rel_construction_missed', f'{kind}/{tag}')
+        if bool(val) != exact_want:
+            ctx.fail(c2, {'what': 'geometry_equal disagrees with shape/coordinate system/affine-within-tolerance/frame-of-reference',
+                          'got': bool(val), 'want': exact_want, 'relation': kind}, site='geometry_equal')
+        reqs.append(('geometryEqual', {'a': geom_json(gx), 'b': geom_json(gy), 'tol': None if tol is None else rat(tol),
+                                       'ca': 0, 'cb': 0}))
+        pending.append(('geq', c2, ('ok', bool(val)), None))
+        return bool(val)
+    outcome = ''
+    if kind in ('refl', 'refl-copy'):
+        X = mk(g)
+        Y = X if kind == 'refl' else (X.copy() if hasattr(X, 'copy') else X)
+        v = ask(X, Y, g, g, 'xx', True)
+        if v is False:
+            ctx.fail(case, {'what': 'geometry_equal is not reflexive'}, site='geometry_equal/relation')
+        outcome = str(v)
+    elif kind in ('asym', 'sym-abs', 'sym-none'):
+        h = copy_geom(g)
+        c = r.randrange(3)
+        big = F(r.choice([100000, 250000, 65536, -100000, -300000]))
+        g['pos'][c] = big
+        base = tol if tol is not None else F(0)
+        if kind == 'asym':
+            lo = base + RTOL * abs(big)                # |d| must exceed this for the reverse direction to fail
+            d = lo * (1 + RTOL / 2)                     # inside the window (lo, lo / (1 - rtol)], about its middle
+            h['pos'][c] = big + (d if big > 0 else -d)   # |b| = |a| + |d|
+        elif kind == 'sym-abs':
+            h['pos'][c] = big + base * F(3, 4) * r.choice([1, -1])
+        else:
+            h['pos'][c] = big
+        h['exact'] = g['exact'] = False
+        X, Y = mk(g), mk(h)
+        ab = ask(X, Y, g, h, 'ab', True)
+        ba = ask(Y, X, h, g, 'ba', kind != 'asym')
+        outcome = f'{ab}/{ba}'
+        if kind != 'asym' and ab != ba:
+            ctx.fail(case, {'what': 'geometry_equal is not symmetric where it must be', 'ab': ab, 'ba': ba}, site='geometry_equal/relation')
+        if kind == 'asym':
+            ctx.hist('geometry_equal_asymmetric_window', 'asymmetric as specified' if (ab, ba) == (True, False) else f'{ab}/{ba}')
+    elif kind == 'trans':
+        base = tol if tol is not None else F(0)
+        if base == 0:
+            base = F(1, 1024)
+            kw = {'tol': float(base)}
+            tol = base
+            case['info']['tol'] = '1/1024'
+        c = r.randrange(3)
+        g['pos'][c] = F(0)                             # at the origin: the relative term is negligible
+        h, k = copy_geom(g), copy_geom(g)
+        h['pos'][c] = g['pos'][c] + base * F(3, 4)
+        k['pos'][c] = g['pos'][c] + base * F(3, 2)
+        for x in (g, h, k):
+            x['exact'] = False
+        X, Y, Z = mk(g), mk(h), mk(k)
+        a1, a2, a3 = ask(X, Y, g, h, 'gh', True), ask(Y, Z, h, k, 'hk', True), ask(X, Z, g, k, 'gk', False)
+        outcome = f'{a1}/{a2}/{a3}'
+        ctx.hist('geometry_equal_not_transitive', 'g~h, h~k, not g~k' if (a1, a2, a3) == (True, True, False) else outcome)
+    else:
+        h, k = copy_geom(g), copy_geom(g)
+        g['for'], h['for'], k['for'] = '1.2.826.0.1.3680043.8.498.1', None, '1.2.826.0.1.3680043.8.498.2'
+        X, Y, Z = mk(g), mk(h), mk(k)
+        a1, a2, a3 = ask(X, Y, g, h, 'gh', True), ask(Y, Z, h, k, 'hk', True), ask(X, Z, g, k, 'gk', False)
+        outcome = f'{a1}/{a2}/{a3}'
+    ctx.case(sample=case if i % 41 == 0 else None, nontrivial_key=('rel', kind, tolk, outcome), stream='rel', rel_kind=kind,
+             geq_tol=case['info']['tol'], outcome=outcome)
+
+
+# ------------------------------------------------------------------------------------------ stream: transformers in both directions
+def run_v2vinv_case(ctx, i, reqs, pending):
+    """source + target derived by a chain (every signed permutation, strides, crops, pads): the transformer target -> source
+    sends every voxel index of the target to the integer source index at the same physical position (exactly, rounded or
+    not), the transformer source -> target sends it back; random points: there and back is the identity."""
+    from highdicom.volume import VolumeToVolumeTransformer
+    r = ctx.rng('v2vinv', i)
+    src = random_source(r)
+    if r.random() < 0.7:
+        src['dir'] = [list(d) for d in r.choice(SP)]
+        src['spacing'] = [r.choice([F(1, 4), F(1, 2), F(1), F(2), F(4)]) for _ in range(3)]
+        src['pos'] = [F(r.randint(-64, 64), r.choice([1, 2, 4])) for _ in range(3)]
+        src['exact'] = True
+    N = int(np.prod(src['shape']))
+    idx = np.arange(N).reshape(src['shape'])
+    tgt, tidx, ops = random_chain(r, copy_geom(src), idx, r.choice([1, 1, 2, 2, 3, 4]))
+    def pow2(q):
+        return q > 0 and (q.numerator & (q.numerator - 1)) == 0 and (q.denominator & (q.denominator - 1)) == 0
+    # np.linalg.inv is exact for scaled signed permutations with power-of-two spacings only (a stride of 3 makes 1/3 appear)
+    exact = bool(src.get('exact')) and all(F(float(v)) == v for v in affine12(src) + affine12(tgt)) \
+        and all(pow2(q) for q in list(src['spacing']) + list(tgt['spacing']))
+    tolv = F(0) if exact else F(1, 10 ** 7)
+    S, T = make_geometry(src), make_geometry(tgt)
+    base = {'stream': 'v2vinv', 'index': i, 'seed': ctx.seed, 'ops': ops, 'exact': exact}
+    ks = [list(k) for k in itertools.product(*[range(n) for n in tgt['shape']])]
+    if len(ks) > 60:
+        ks = r.sample(ks, 60)
+    want_src = [to_idx(src, to_ref(tgt, k)) for k in ks]
+    if any(v.denominator != 1 for w in want_src for v in w):
+        ctx.fail(base, {'what': 'harness: a chain-derived target voxel does not sit on the source lattice'}, site='harness')
+        return
+    dtype = r.choice([np.int64, np.int32, np.float64])
+    for rounded in (False, True):
+        case = dict(base, round_output=rounded, dtype=np.dtype(dtype).name)
+        st1, t_ts = _call(VolumeToVolumeTransformer, T, S, round_output=rounded, check_bounds=False)
+        st2, t_st = _call(VolumeToVolumeTransformer, S, T, round_output=rounded, check_bounds=True)
+        if st1 != 'ok' or st2 != 'ok':
+            ctx.fail(case, f'transformer could not be constructed: {t_ts if st1 != "ok" else t_st}', site='v2v/construct')
+            continue
+        pts = np.array(ks, dtype=dtype).reshape(-1, 3)
+        st, there = _call(t_ts, pts)
+        ctx.case(sample=case if i % 37 == 0 and rounded else None,
+                 nontrivial_key=('v2vinv', tuple(ops), rounded, exact, np.dtype(dtype).name), stream='v2vinv',
+                 v2v_mode=f'round={int(rounded)},inverse-pair', outcome=st if st == 'ok' else there, n_points=len(ks),
+                 chain_ops='+'.join(sorted({o.split(':')[0] for o in ops})) or 'none')
+        if st != 'ok':
+            ctx.fail(case, f'transformer target -> source raised {there}', site='v2v/mapping')
+            continue
+        th = np.asarray(there, dtype=np.float64).reshape(-1, 3)
+        bad = [(k, [float(x) for x in g_], [int(x) for x in w]) for k, g_, w in zip(ks, th, want_src)
+               if any(abs(F(float(g_[a])) - w[a]) > tolv * max(1, abs(w[a])) for a in range(3))]
+        if bad:
+            ctx.fail(case, {'what': 'transformer target -> source does not give the source voxel at the same physical position',
+                            'examples': bad[:3]}, site='v2v/mapping')
+            continue
+        if rounded and (there.dtype.kind not in 'iu' or not np.array_equal(np.asarray(there, dtype=np.int64),
+                                                                          np.array([[int(x) for x in w] for w in want_src]).reshape(-1, 3))):
+            ctx.fail(case, {'what': 'rounded transformer output is not the integer source index'}, site='v2v/mapping')
+        # and back: the source -> target transformer (with its bounds check: every image is a voxel of the target)
+        st, back = _call(t_st, np.asarray(there))
+        if st != 'ok':
+            ctx.fail(case, {'what': f'transformer source -> target refused the images of target voxels: {back}'}, site='v2v/bounds-false')
+        else:
+            bk = np.asarray(back, dtype=np.float64).reshape(-1, 3)
+            if any(abs(F(float(b_[a])) - k[a]) > tolv * max(1, abs(k[a])) for k, b_ in zip(ks, bk) for a in range(3)):
+                ctx.fail(case, {'what': 'there and back between the two volumes is not the identity on voxel indices'}, site='v2v/mapping')
+        impl = ('ok', [[F(float(v)) for v in row] for row in th])
+        reqs.append(('v2v', {'from': [rat(v) for v in affine12(tgt)], 'to': [rat(v) for v in affine12(src)],
+                             'shape': src['shape'], 'round': rounded, 'check': False, 'pts': [[rat(F(v)) for v in k] for k in ks]}))
+        pending.append(('pts', case, impl, tolv))
+    # random continuous points: there and back (unrounded) is the identity
+    pts = np.array([[r.uniform(-3, 9) for _ in range(3)] for _ in range(5)])
+    st1, f = _call(VolumeToVolumeTransformer, S, T)
+    st2, b = _call(VolumeToVolumeTransformer, T, S)
+    if st1 == 'ok' and st2 == 'ok':
+        rt = b(f(pts))
+        if not np.allclose(rt, pts, rtol=1e-9, atol=1e-9):
+            ctx.fail(base, {'what': 'there and back between the two volumes is not the identity on points'}, site='v2v/mapping')
+
+
 STREAMS = {'chain': run_chain_case, 'perturb': run_perturb_case, 'geq': run_geq_case, 'v2v': run_v2v_case,
-           'v2vdt': run_v2vdt_case, 'v2vhist': run_v2vhist_case, 'padspell': run_padspell_case}
+           'v2vdt': run_v2vdt_case, 'v2vhist': run_v2vhist_case, 'padspell': run_padspell_case, 'rel': run_rel_case,
+           'v2vinv': run_v2vinv_case}
 
 
 def _resolve(ctx, reqs, pending):
@@ -1360,7 +1535,8 @@ def run(ctx, only=None):
         run_helpers(ctx, reqs, pending)
         run_slice_grid(ctx, reqs, pending)
     budget = {'chain': ctx.n(1000, 12000), 'perturb': ctx.n(800, 9000), 'geq': ctx.n(1000, 10000), 'v2v': ctx.n(500, 5000),
-              'v2vdt': ctx.n(600, 6000), 'v2vhist': ctx.n(500, 5000), 'padspell': ctx.n(200, 2000)}
+              'v2vdt': ctx.n(600, 6000), 'v2vhist': ctx.n(500, 5000), 'padspell': ctx.n(200, 2000), 'rel': ctx.n(300, 3000),
+              'v2vinv': ctx.n(250, 2500)}
     for stream, fn in STREAMS.items():
         if only is not None and only[0] != stream:
             continue
